@@ -694,6 +694,14 @@ P["C07"]["units"] += [
     _wrap("jwks_create_fromfile", "const char *f; jwks_create_fromfile(f);", ["jwks_load_fromfile/contract_rec_jwks_load_fromfile"], 1),
     _wrap("jwks_create_fromfp", "FILE *f; jwks_create_fromfp(f);", ["jwks_load_fromfp/contract_rec_jwks_load_fromfp"], 1),
 ]
+
+# ---- C08 completeness: a well-formed JWK imports without error unless a library call failed or refused ----
+for _f in ("openssl_process_rsa", "openssl_process_ec", "openssl_process_eddsa"):
+    _c = "contract_C08complete_" + _f
+    P["C08"]["units"].append(U("C08.%s.complete" % _f, "%s -> set_one_bn / set_one_octet / set_ec_pub_key / pctx_to_pem (libjwt/openssl/jwk-parse.c), well-formed JWK" % _f, JWKP,
+        "contracts/jwk_parse_c.h", "json_t *j; jwk_item_t *it; %s(j, it);" % _f, "%s/%s" % (_f, _c), replace=["jwt_strcmp/contract_exact_jwt_strcmp"],
+        stubs=JWKP_STUBS, defines=["VERIF_B64_TRACK", "VERIF_ALLOC_RECORD_FAIL", "VERIF_WELLFORMED"], flags=[],
+        expect=[_c + "\\.postcondition\\.1"], timeout=900, replay={"driver": "replay/r_C08_ec.c"} if _f == "openssl_process_ec" else None))
 _REC_DOERS = ["__getter/contract_rec___getter", "__setter/contract_rec___setter", "__deleter/contract_rec___deleter"]
 for _w in ("header_get", "header_set", "claim_get", "claim_set"):
     P["C15"]["units"].append(U("C15.jwt_%s" % _w, "jwt_%s -> __run_it (libjwt/jwt-setget.c)" % _w, SETGET_C, "contracts/jwt_setget_c.h",
